@@ -55,7 +55,33 @@ def _reads_appended(ctx, rep, spec):
     return n
 
 
+def _fixed_rounds_at_last_decimal(ctx, rep):
+    """to_str_fixed asks to_decimal for a positive number of significant digits only: with 0 or fewer, to_decimal rounds at the
+    units, and a value whose first significant digit lies beyond the field's last decimal is shown unrounded (0.06 in #.# as 0.0)."""
+    from ..intervals import bounds as _bounds
+    fx = ctx.fn('pcbasic/basic/values/numbers.py:Float.to_str_fixed')
+    fl = ctx.flow(fx)
+    calls = [c for c in own_nodes(fx) if isinstance(c, ast.Call) and isinstance(c.func, ast.Attribute) and c.func.attr == 'to_decimal' and c.args]
+    rep.floor('fixed.rounds-at-last-decimal', len(calls), 2, 'calls of to_decimal in to_str_fixed')
+    for c in calls:
+        a = c.args[0]
+        if norm(a) == 'self.digits':
+            ok, why = True, ''
+        elif isinstance(a, ast.Constant) and a.value == 0:
+            # rounding a scaled copy to an integer: the receiver must be the value times 10**n_decimals
+            recv = c.func.value
+            src = [x.value for x in own_nodes(fx) if isinstance(x, ast.Assign) and isinstance(recv, ast.Name) and norm(x.targets[0]) == recv.id]
+            ok = len(src) == 1 and '10 ** n_decimals' in norm(src[0]) and '.imul(' in norm(src[0]) and 'self.clone()' in norm(src[0])
+            why = 'to_decimal(0) rounds at the units: the receiver must be a copy of the value scaled by 10**n_decimals'
+        else:
+            b = _bounds(ctx, fl.facts(c), norm(a))
+            ok = b.lo() is not None and b.lo() >= 1
+            why = 'the digit count %s is not known to be positive here (%s)' % (norm(a), b.describe())
+        rep.ob('fixed.rounds-at-last-decimal', 'to_str_fixed: %s' % short(c, 50), ok, why, ctx.where(c))
+
+
 def check(ctx, rep):
+    _fixed_rounds_at_last_decimal(ctx, rep)
     n = _reads_appended(ctx, rep, F + ':NumberField.__init__') + _reads_appended(ctx, rep, F + ':StringField.__init__')
     rep.floor('width.every-consumed-char-counted', n, 10, 'reads')
     ni = ctx.fn(F + ':NumberField.__init__')
@@ -161,6 +187,8 @@ def variants(ctx):
         return lambda tree: f(mu.find_def(tree, f_name))
 
     return [
+        mu.Variant('fixed-notation-asks-for-zero-digits', 'break', 'pcbasic/basic/values/numbers.py',
+                   lambda tree: mu.replace_expr(mu.find_def(tree, 'Float.to_str_fixed'), mu.text_is('n_work > 0'), 'n_work >= 0'), expect='fixed.rounds-at-last-decimal'),
         Va('dollar-prefix-counts-two-digits', 'break', F, in_fn('NumberField.__init__', _dollar_two), expect='width.prefix-digit'),
         Va('leading-zero-without-room', 'break', F,
            in_fn('NumberField.format', lambda fn: mu.replace_expr(fn, mu.text_is('len(valstr) < len(tokens)'), 'len(valstr) <= len(tokens)')), expect='format.padding-keeps-fit'),
